@@ -362,6 +362,14 @@ func (eng *Engine) verifyFunction(p *Pkg, key string, ct *Contract) (res *FuncRe
 	cpkg := p
 	env := &SpecEnv{fc: fc, st: st, old: st, scope: scope, oldScope: scope, pkg: cpkg}
 	for _, rq := range ct.Requires {
+		if c, ok := rq.E.(*SCall); ok {
+			if id, ok := c.Fun.(*SIdent); ok && id.Name == "held" && len(c.Args) == 1 {
+				lid := fc.specLockID(env, c.Args[0])
+				st.locks[lid] = "w"
+				fc.entryLocks = append(fc.entryLocks, lid)
+				continue
+			}
+		}
 		st.assume(fc.safeSpec(env, rq.E, rq.Text).T)
 	}
 	fc.entry = st.clone()
@@ -459,6 +467,15 @@ func (fc *FnCtx) checkPost(st *State, vals []Val, panicked bool) {
 	}
 	sort.Strings(held)
 	for _, id := range held {
+		atEntry := false
+		for _, e := range fc.entryLocks {
+			if e == id {
+				atEntry = true
+			}
+		}
+		if atEntry {
+			continue // held by the caller
+		}
 		fc.assertNamed(st, "lock", "released:"+id[:strings.Index(id, "@")], "false", "function exits with lock "+id+" held", pos)
 	}
 	if panicked {
